@@ -305,7 +305,7 @@ func c19sleepy(id string, args []ugo.Object) bool {
 		return false
 	}
 	d, ok := ugo.ToGoInt64(args[0])
-	return ok && d > int64(time.Millisecond)
+	return ok && d > int64(25*time.Millisecond)
 }
 
 // outcome token of one call: B (returned a value), E<message> (returned an error), P<text> (panicked)
@@ -381,7 +381,7 @@ func c19script(c *c19callable, args []ugo.Object) string {
 
 // (case id inv19)                    -> (ok (cid ...))
 // (case id pool19)                   -> (ok (name class typename flags) ...)
-// (case id calls19 cid mode (t...))  -> (ok tok ...) ; each t is a list of pool indexes; mode value|ex|exv|script
+// (case id calls19 cid mode (t...))  -> (ok tok ...) ; each t is a list of pool indexes; mode value|ex|exv|exn|script
 func runC19(kind string, args []*Sexp) *Sexp {
 	ugo.PrintWriter = io.Discard
 	switch kind {
@@ -412,6 +412,15 @@ func runC19(kind string, args []*Sexp) *Sexp {
 				for i, x := range t.List {
 					vals[i] = pool[atomInt(x)].mk()
 				}
+				if c.id == "time.Sleep" {
+					// for Sleep the pool value 65536 stands for 12 ms, so that the poll of the
+					// abort flag inside its wait loop (every 10 ms) is reached
+					for i := range vals {
+						if vals[i] == ugo.Int(65536) {
+							vals[i] = ugo.Int(12 * time.Millisecond)
+						}
+					}
+				}
 				if c19sleepy(c.id, vals) {
 					out.List = append(out.List, A("S"))
 					continue
@@ -419,6 +428,9 @@ func runC19(kind string, args []*Sexp) *Sexp {
 				var tok string
 				if mode == "script" {
 					tok = c19script(c, vals)
+				} else if mode == "exn" {
+					// CallEx with a Call that carries no VM (as Function.Call of a host does)
+					tok = c19direct(c, "ex", nil, vals)
 				} else {
 					tok = c19direct(c, mode, vm, vals)
 				}
